@@ -35,7 +35,7 @@ theorem parseCommand_bad (bad : Lex) (hok : LexOK bad) (hbad : NotCommand bad) (
       (some "BST command".toList) true ln
     simp only [parseCommand, Lex.text]
     rw [hreq]
-    simp only [hbad s rfl, nl]
+    simp only [cmdArityM_eq, hbad s rfl, nl]
   · have hnw : ∀ s, bad ≠ .word s := fun s h => hword ⟨s, h⟩
     have hne := lex_text_ne_nil bad hok
     have hh : headSat isWs (bad.text ++ rest) = false := by
@@ -161,7 +161,7 @@ theorem command_partial (name : Str) (gs : List (List Tok)) (j : Nat) (prev : Op
   refine ⟨ln1, ?_, hgood1, ?_⟩
   · simp only [parseCommand, renderW, Lex.text]
     rw [hreq]
-    simp only [har, hp1]
+    simp only [cmdArityM_eq, har, hp1]
     rfl
   · rw [hcons1]
     simp only [renderW, nl_append, lex_text_no_nl _ hok]
